@@ -321,13 +321,15 @@ def cmd_run(args):
     done = load_results()
     todo = [c for c in cands if c["id"] not in done and (not fprops or fprops & set(c["props"])) and (not fops or c["op"] in fops)
             and (not ffiles or c["file"] in ffiles)][:mx]
+    if "--reverse" in args:
+        todo.reverse()
     print("%d candidates, %d already evaluated, %d to do with %d workers" % (len(cands), len(done), len(todo), workers), flush=True)
     lock = threading.Lock()
     t_start = time.time()
     it = iter(todo)
 
     def worker(k):
-        d = "/tmp/mutw-%d" % k
+        d = "/tmp/mutw-%d-%d" % (os.getpid(), k)
         shutil.rmtree(d, ignore_errors=True)
         subprocess.check_call(["rsync", "-a", "--exclude", ".git", REPO + "/", d + "/"])
         try:
@@ -336,6 +338,10 @@ def cmd_run(args):
                     c = next(it, None)
                 if c is None or time.time() - t_start > budget:
                     break
+                with lock:
+                    fresh = c["id"] in {json.loads(l)["id"] for l in open(RES)} if os.path.exists(RES) else False
+                if fresh:  # evaluated meanwhile by another runner process
+                    continue
                 rec = dict(c)
                 if not apply_mutant(d, c):
                     rec["verdict"] = "stale"
